@@ -12,7 +12,7 @@ for d in seeded/*/; do
     C19) bin=plain/bin/etl;;
     C14) bin=plain/bin/efs;;
     C01|C03) bin=small/bin/eion;;
-    C13) bin=small/bin/eion; grep -q "RandomGenerator" "$d/patch.diff" && bin=plain/bin/erng;;
+    C13) bin=small/bin/eion; grep -q "^+++ b/src/RandomGenerator.hpp" "$d/patch.diff" && bin=plain/bin/erng;;
     C12) bin=asan/bin/eion; grep -qE "Hydro|Alvelius|LiveOutput|SurfaceDensity|RadiationHydro" "$d/patch.diff" && bin=asan/bin/erhd;;
     *) bin=small/bin/erhd;;
   esac
